@@ -747,6 +747,100 @@ class _Events(Spec):
         return [o.fields["format"].val]
 
 
+def opt_parts(e):
+    """(present, value) of an optional cell of an object array: None, a value, or a value under a condition"""
+    from .loops import MixedElem
+    if e is None:
+        return False, None
+    if isinstance(e, MixedElem):
+        if e.y is None:
+            return e.c, e.x
+        if e.x is None:
+            return Not(e.c), e.y
+        raise OutOfReach("object-array cell with two non-None alternatives")
+    return True, e
+
+
+@spec("Data2DPCK", "basictdf.tdfData2D.Data2DPCK")
+class _Data2DPCK(Spec):
+    """data: (nFrames, nCams) object array; a cell is None or an (n, 2) float32 array with 1 <= n < 2**16 points
+    (valid_T: an empty array in a cell is not canonical -- it is written as 'no points' and decodes as None)"""
+
+    def make(self, interp, path, idx, assume, nF=None, nC=None, variant=None):
+        from .loops import MixedElem
+        s = Sym(path, idx)
+        o = self.new(interp, (path,) + tuple(idx))
+        nF = s.int("nFrames") if nF is None else nF
+        nC = s.int("nCams") if nC is None else nC
+        assume.append(And(nF >= 0, nC >= 0, nF < 2**31, nC < 2**31))
+        present = s.fun("present", 2, B)
+        npts = s.fun("npts", 2)
+        pts = s.fun("pts", 4)
+        f, c = z3.Const(f"f!{s.path}", I), z3.Const(f"c!{s.path}", I)
+        assume.append(z3.ForAll([f, c], z3.And(npts(f, c) >= 1, npts(f, c) < 65536)))
+
+        def cell(f_, c_):
+            nd = VNd((npts(f_, c_), 2), VDType("f4"), (lambda p_, x_, f_=f_, c_=c_: pts(f_, c_, p_, x_)), label=f"{s.path}.cell")
+            return MixedElem(present(f_, c_), nd, None)
+        o.fields["data"] = VNd((nF, nC), VDType("obj"), cell, label=f"{s.path}.data")
+        o.nF, o.nC = nF, nC
+        return o
+
+    def view(self, o):
+        d = o.fields["data"]
+        nF, nC = d.shape
+
+        def count(f, c):
+            p, x = opt_parts(d.get(f, c))
+            if x is None:
+                return 0
+            return x.shape[0] if p is True else If(p, x.shape[0], 0)
+
+        def points(f, c):
+            p, x = opt_parts(d.get(f, c))
+            if x is None:
+                return Seq(0, lambda i: 0)
+            return Seq(2 * count(f, c), lambda i, x=x: x.get(zint(i) / 2, zint(i) % 2))
+        return NS(cameras=SeqView(0, nC, lambda k: k), frames=SeqView(0, nF, lambda k: k), count=count, points=points)
+
+    def build_args(self, o):
+        return [o.nF, o.nC]
+
+
+@spec("Data2D", "basictdf.tdfData2D.Data2D")
+class _Data2D(Spec):
+    """PCK format; camera channels below 2**15 (the map is written through the signed 16-bit codec and read back
+    through the unsigned one: same bytes in that range -- documented domain restriction of valid_T)"""
+
+    def make(self, interp, path, idx, assume, variant=None):
+        s = Sym(path, idx)
+        o = self.new(interp, (path,) + tuple(idx))
+        mod = interp.loader.import_module(interp, "basictdf.tdfData2D")
+        o.fields["format"] = mod.ns["Data2DBlockFormat"].members["PCKFormat"]
+        nC = sym_int(s, "nCams", "i4", assume)
+        nF = sym_int(s, "nFrames", "i4", assume)
+        assume.append(And(nC >= 0, nF >= 0))
+        o.fields["nCams"], o.fields["nFrames"] = nC, nF
+        o.fields["frequency"] = sym_int(s, "frequency", "i4", assume)
+        o.fields["startTime"] = sym_float(s, "startTime", assume=assume)
+        o.fields["flags"] = sym_enum(interp, s, "flags", mod.ns["Data2DFlags"], assume)
+        _block_dates(interp, o, s)
+        cm = s.fun("camMap", 1)
+        j = z3.Const(f"cm!{path}", I)
+        assume.append(z3.ForAll([j], z3.And(cm(j) >= 0, cm(j) < 2**15)))
+        o.fields["_camMap"] = VNd((nC,), VDType("u2"), lambda i: cm(i), label=f"{path}._camMap")
+        o.fields["_data"] = SPECS["Data2DPCK"].make(interp, path + "._data", idx, assume, nF=nF, nC=nC)
+        return o
+
+    def view(self, o):
+        f = o.fields
+        return NS(nCams=f["nCams"], nFrames=f["nFrames"], frequency=f["frequency"], startTime=f["startTime"], flags=f["flags"],
+                  camMap=f["_camMap"].flat(), pck=f["_data"])
+
+    def build_args(self, o):
+        return [o.fields["format"].val]
+
+
 @spec("Entry", "basictdf.basictdf.TdfEntry")
 class _Entry(Spec):
     def make(self, interp, path, idx, assume, variant=None):
